@@ -403,7 +403,13 @@ def install(reg):
         if not T.is_conc(step):
             cx.require(f"safe.div#{cx.ordinal('safe.div')}", T.ne(step, 0), "safe", "arange step non-zero")
         dt = "int" if allint else "real"
-        return SArr.fresh((n,), lambda idx: T.add(start, T.mul(idx[0], step)), dt, name=f"arange{o}")
+        if T.is_conc(step):
+            return SArr.fresh((n,), lambda idx: T.add(start, T.mul(idx[0], step)), dt, name=f"arange{o}")
+        # symbolic step: keep the elements opaque (k*step is non-linear) and state the defining equation once
+        ar = T.uf(f"arange!{o}", "int", dt)
+        kq = z3.Int(f"ak!{o}")
+        cx.fact(z3.ForAll([kq], ar(kq) == T.z(T.add(start, T.mul(kq, step))), patterns=[ar(kq)]), "numpy:arange[k] = start + k*step")
+        return SArr.fresh((n,), lambda idx: ar(T.zi(idx[0])), dt, name=f"arange{o}")
 
     @fn("numpy.linspace")
     def np_linspace(itp, a, k):
@@ -789,10 +795,31 @@ def install(reg):
             return SArr.fresh(q.shape, elem, "real")
         return wrap(_quantile_term(cx, n, g, term_of(q)))
 
+    def _linear_decomposition(body, kap):
+        """body = sum_j coef_j * atom_j with coef_j free of kap and atom_j a kap-dependent non-sum term"""
+        terms = body.children() if (z3.is_app(body) and body.decl().kind() == z3.Z3_OP_ADD) else [body]
+        out = []
+        for t in terms:
+            coef, core = _factor_out(z3.simplify(t), kap)
+            if not _contains(core, kap):
+                return None
+            out.append((coef if coef is not None else z3.RealVal(1), core))
+        return out
+
     def _quantile_term(cx, n, g, q):
         kap = z3.Int("kappa!")
         body = z3.simplify(T.zr(g((kap,))))
         import hashlib
+        dec = _linear_decomposition(body, kap)
+        if dec is not None and len(dec) >= 2:
+            # quantile of a linear combination c1*A1 + c2*A2 + ...: a function of the coefficients (and q)
+            dec = sorted(dec, key=lambda cc: cc[1].sexpr())
+            key = T.zi(n).sexpr() + "|" + "|".join(c.sexpr() for _, c in dec)
+            h = hashlib.sha1(key.encode()).hexdigest()[:10]
+            f = cx.new_fn(f"quantile_lin_{h}", *(["real"] * (len(dec) + 2)))
+            cx.ghost.setdefault("quantiles", {})[f"quantile_lin_{h}"] = (n, [c for _, c in dec])
+            cx.trusted.add("numpy:quantile(sample, q) is the empirical q-quantile (linear interpolation)")
+            return f(*[co for co, _ in dec], T.zr(q))
         h = hashlib.sha1((T.zi(n).sexpr() + "|" + body.sexpr()).encode()).hexdigest()[:10]
         f = cx.new_fn(f"quantile_{h}", "real", "real")
         cx.ghost.setdefault("quantiles", {})[f"quantile_{h}"] = (n, g)
